@@ -31,7 +31,7 @@ func init() {
 	register(&propSpec{
 		ID: "C04",
 		Explanation: "Decides the write gate and decoder buffer discipline for trees: (tree-encode-gate) in Tree.Encode the object is typed and written only after Validate succeeded; (tree-construction) plumbing.TreeObject is given to SetType " +
-			"only by Tree.Encode, so every tree built from in-memory entries passes the gate; (validate-rules) Validate still reports each fsck rule (null hash, empty name, slash, ValidTreePath, duplicate, name length, mode, sort order) and Decode and Validate " +
+			"only by Tree.Encode, so every tree built from in-memory entries passes the gate; (validate-rules) Validate still reports each fsck rule (null hash, empty name, slash, ValidTreePath, duplicate, name length, mode, sort order), takes the duplicate report on a lookup in the set of all names seen (not on a comparison with the previous entry: a file and a directory of one name are not neighbours in tree order), and Decode and Validate " +
 			"use the same sort-name function; (view-not-retained) Tree.Decode never uses a bufio ReadSlice view after the reader was read again (entry names longer than the buffer are copied first). " +
 			"Not decided: decoding equals git ls-tree on every tree; 'never refuses a valid set'.",
 		Assumptions: []string{},
@@ -534,6 +534,82 @@ func runC04(c *Ctx) {
 		// rules expressed inside a branch body: ValidTreePath result and duplicate detection
 		c.Check(nodeHasCall(val.Decl.Body, true, calleeIs(info, pu+"ValidTreePath")) != nil, r3, val.Name()+":valid-tree-path", val.Decl.Pos(), "each name goes through pathutil.ValidTreePath")
 		c.Check(usesObj(info, val.Decl.Body, dup), r3, val.Name()+":duplicate", val.Decl.Pos(), "duplicate names are reported")
+		// duplicate names are not neighbours in tree order: the file `foo` and the directory `foo` (sorted as "foo/")
+		// can have `foo.go` or `foo-bar` between them. The duplicate report must therefore be taken on a lookup in a
+		// set of all names seen so far; a comparison with a variable carried over from the previous iteration misses
+		// them (git fsck: duplicateEntries).
+		if dup != nil {
+			verdict, why := "undecided", "not decided: the duplicate report is taken neither on a set lookup nor on a comparison with the previous entry"
+			ast.Inspect(val.Decl.Body, func(n ast.Node) bool {
+				ifs, ok := n.(*ast.IfStmt)
+				if !ok || !usesObj(info, ifs.Body, dup) {
+					return true
+				}
+				// a comma-ok lookup in a map keyed by string, in the init or the condition
+				lookup := false
+				for _, nd := range []ast.Node{ifs.Init, ifs.Cond} {
+					if nd == nil {
+						continue
+					}
+					ast.Inspect(nd, func(m ast.Node) bool {
+						if ix, ok := m.(*ast.IndexExpr); ok {
+							if mt, ok := info.Types[ix.X].Type.Underlying().(*types.Map); ok && isStringish(mt.Key()) {
+								lookup = true
+							}
+						}
+						return true
+					})
+				}
+				neighbour := false
+				ast.Inspect(ifs.Cond, func(m ast.Node) bool {
+					be, ok := m.(*ast.BinaryExpr)
+					if !ok || be.Op != token.EQL {
+						return true
+					}
+					for _, side := range []ast.Expr{be.X, be.Y} {
+						// entries[i-1].Name
+						if sel, ok := unparen(side).(*ast.SelectorExpr); ok && sel.Sel.Name == "Name" {
+							if ix, ok := unparen(sel.X).(*ast.IndexExpr); ok {
+								if off, ok := unparen(ix.Index).(*ast.BinaryExpr); ok && (off.Op == token.SUB || off.Op == token.ADD) {
+									neighbour = true
+								}
+							}
+						}
+						v := objOf(info, side)
+						if v == nil {
+							continue
+						}
+						// assigned inside the loop from the entry's name (carried to the next iteration)
+						ast.Inspect(val.Decl.Body, func(k ast.Node) bool {
+							if as, ok := k.(*ast.AssignStmt); ok && as.Tok == token.ASSIGN {
+								for i, l := range as.Lhs {
+									if objOf(info, l) == v && i < len(as.Rhs) {
+										if sel, ok := unparen(as.Rhs[i]).(*ast.SelectorExpr); ok && sel.Sel.Name == "Name" {
+											neighbour = true
+										}
+									}
+								}
+							}
+							return true
+						})
+					}
+					return true
+				})
+				switch {
+				case lookup:
+					verdict, why = "held", "the duplicate report is taken on a lookup in the set of names seen so far"
+				case neighbour:
+					verdict, why = "violated", "the duplicate report is taken on a comparison with the previous entry's name: in tree order a file and a directory of the same name need not be neighbours (`foo`, `foo.go`, `foo/`), the duplicate passes and git fsck rejects the tree (duplicateEntries)"
+				}
+				return true
+			})
+			switch verdict {
+			case "violated":
+				c.Violate(r3, val.Name()+":duplicate-scope", val.Decl.Pos(), why)
+			default:
+				c.Hold(r3, val.Name()+":duplicate-scope", val.Decl.Pos(), why)
+			}
+		}
 		c.Check(usesObj(info, val.Decl.Body, notSorted), r3, val.Name()+":not-sorted-error", val.Decl.Pos(), "unsorted entries are reported")
 		// the branch that reports ErrEntriesNotSorted is taken on an ordering comparison of two strings (the sort names)
 		orderCmp := false
